@@ -110,8 +110,11 @@ def nodeNames : Node → List String
 def isGenerated (n : String) : Bool := match n.toList with | '$' :: _ => true | _ => false
 
 def canonEmit (r : Res) : String :=
-  let names := ((r.nodes.flatMap nodeNames) ++ specWires (emitSpec r.val)).filter isGenerated |>.eraseDups
-  let ren (n : String) : String := match names.idxOf? n with
+  -- a zero-width wire carries nothing: the real backend gives all zero-width cell outputs the wire of some zero-width
+  -- signal (`emit_driven_wire`: the empty value *is* that signal's value); all of them are printed `_0`
+  let zero (n : String) : Bool := (r.wires.find? (·.1 == n)).any (·.2 == 0)
+  let names := ((r.nodes.flatMap nodeNames) ++ specWires (emitSpec r.val)).filter (fun n => isGenerated n && !zero n) |>.eraseDups
+  let ren (n : String) : String := if zero n then "_0" else match names.idxOf? n with
     | some k => s!"w{k}"
     | none => n
   let wires := names.filterMap (fun n => (r.wires.find? (·.1 == n)).map (fun nw => s!"{ren n}:{nw.2}"))
@@ -120,18 +123,6 @@ def canonEmit (r : Res) : String :=
 def cellHist (r : Res) : String :=
   let tys := r.nodes.map (fun n => match n with | .cell c => c.type | .proc _ => "process" | _ => "other")
   ",".intercalate (tys.eraseDups.map (fun t => s!"{t}:{tys.count t}"))
-
-/-- every part-select in the expression reads inside the extended operand (or the operand is unsigned): outside of
-this the emitted `$shift` is finding F27 -/
-def partsInside (ctx : Amaranth.Ctx) : Expr → Bool
-  | .const .. | .sig _ => true
-  | .op1 _ a => partsInside ctx a
-  | .op2 _ a b => partsInside ctx a && partsInside ctx b
-  | .slice a _ _ => partsInside ctx a
-  | .part a off width stride => partsInside ctx a && partsInside ctx off &&
-      (!(shapeOf ctx a).signed || decide ((2 ^ widthOf ctx off - 1) * stride + width ≤ max (widthOf ctx a) width))
-  | .cat lo hi => partsInside ctx lo && partsInside ctx hi
-  | .ite t _ a b => partsInside ctx t && partsInside ctx a && partsInside ctx b
 
 def handleEmit (ctx : Amaranth.Ctx) (e : Expr) (envs : List Amaranth.Env) : String :=
   let st0 := EmitState.init ctx
@@ -147,7 +138,7 @@ def handleEmit (ctx : Amaranth.Ctx) (e : Expr) (envs : List Amaranth.Env) : Stri
     | .error msg => "error:" ++ clean msg
   let rtl := envs.map fun env => toString (mask w (evalRtl ctx env e)).toNat
   tab ["emit=ok", s!"canon={canonEmit r}", s!"cells={cellHist r}", s!"wf={if e.wf ctx then 1 else 0}",
-       s!"part={if partsInside ctx e then 1 else 0}", s!"width={r.val.length}", s!"ev={",".intercalate ev}", s!"rtl={",".intercalate rtl}"]
+       s!"part={if e.partsInside ctx then 1 else 0}", s!"chains={if e.chainsOk then 1 else 0}", s!"width={r.val.length}", s!"ev={",".intercalate ev}", s!"rtl={",".intercalate rtl}"]
 
 
 def runOnce (f : Flat) (xres : Bool) (init : List (String × Nat)) (events : List (List (String × Nat))) (obs : List String)
